@@ -547,10 +547,15 @@ def check_tearsheet(res, frame, refs, rf_series, bm_obj, ndaily):
     compare_tearsheet(res, "tearsheet", sheet, refs, rows)
 
 
-def check_track_record(res, times, levels, refs):
-    """TrackRecord.tearsheet(): net liquidation values recorded checkpoint by checkpoint, as Broker.rebalance does."""
+def check_track_record(res, times, levels, refs, risk_free=None, benchmark=None, rows=None, what="TrackRecord.tearsheet"):
+    """TrackRecord.tearsheet(): net liquidation values recorded checkpoint by checkpoint, as Broker.rebalance does.
+    `risk_free` / `benchmark` are attached the way TradingEnv.backtest attaches the user's series."""
     res.tag("track-record")
     track = TrackRecord()
+    if risk_free is not None:
+        track.risk_free = risk_free
+    if benchmark is not None:
+        track.benchmark = benchmark
     asset = ETF("C16")
     for t, v in zip(times, levels):
         reb = Rebalancing(contracts=[asset], allocation=[0.5], time=t)
@@ -561,7 +566,94 @@ def check_track_record(res, times, levels, refs):
         reb.context_post = reb.context_pre
         track._checkpoint(reb)
     sheet = track.tearsheet()
-    compare_tearsheet(res, "TrackRecord.tearsheet", sheet, refs[:1], TEARSHEET_ROWS)
+    compare_tearsheet(res, what, sheet, refs[:1], rows or TEARSHEET_ROWS)
+    return sheet
+
+
+# =========================================================================================== PART window
+# tearsheet(risk_free=..., benchmark=...) "ensures that we analyse data over the same time span": every row is a
+# metric of the rows the strategy, the risk-free and the benchmark have in common. Here the three series cover
+# different stretches of one time grid and grow differently outside the common stretch.
+
+RF_CAGR_ROW = [(("Context", "Risk-free CAGR"), "risk_free_cagr")]
+
+
+def run_window(case):
+    res = Result()
+    times, frame, arrays, rf_obj, rf_arr, bm_obj, bm_arr = build(case)
+    tag_base(res, case, times, arrays)
+    n = len(times)
+    w = case["win"]
+    arrays = [np.asarray(a, dtype=float) for a in arrays]
+    multi = isinstance(frame, pd.DataFrame) and frame.shape[1] > 1
+
+    def span(cut):
+        return cut[0] % n, n - cut[1] % n
+
+    def common(*spans):
+        lo, hi = max(x[0] for x in spans), min(x[1] for x in spans)
+        ok = hi - lo >= 2 and (times[hi - 1] - times[lo]).days >= 1
+        return (lo, hi) if ok else None
+
+    sp = {"s": span(w["s"]), "rf": span(w["rf"]), "bm": span(w["bm"])}
+    if common(sp["s"], sp["rf"]) is None or (bm_obj is not None and common(sp["s"], sp["rf"], sp["bm"]) is None):
+        sp = {k: (0, n) for k in sp}             # no valid common stretch: all on the same index
+    strat = frame.iloc[sp["s"][0]:sp["s"][1]]
+    rf_long = rf_obj.iloc[sp["rf"][0]:sp["rf"][1]]
+    bm_long = bm_obj.iloc[sp["bm"][0]:sp["bm"][1]] if bm_obj is not None else None
+    for who in ("rf", "bm"):
+        if who == "bm" and bm_obj is None:
+            continue
+        a, b = sp[who], sp["s"]
+        res.tag("%s:%s" % (who, "same-index" if a == b else
+                           "+".join(x for x, c in (("starts-before", a[0] < b[0]), ("ends-after", a[1] > b[1]),
+                                                   ("starts-after", a[0] > b[0]), ("ends-before", a[1] < b[1])) if c)
+                           + "-the-strategy"))
+
+    def reference(lo, hi, cols, with_bm):
+        ct = times[lo:hi]
+        rc = ref_cagr(ct, ref_collapse(ct, rf_arr[lo:hi])[1])
+        rf_q = Q(rc, 1e-13 * (1.0 + abs(rc)) if math.isfinite(rc) else 0.0)
+        refs = [ref_metrics(ct, a[lo:hi], [0.05, 0.02], rf_q, bm_arr[lo:hi] if with_bm else None) for a in cols]
+        for r in refs:
+            r["risk_free_cagr"] = rf_q
+        return ct, refs
+
+    def span_rows(sheet, ct, what):
+        got = (sheet.loc[("Context", "From")].iloc[0], sheet.loc[("Context", "To")].iloc[0])
+        if got != (ct[0].date(), ct[-1].date()):
+            res.fail("%s analyses %s..%s, the common time span is %s..%s" % (what, got[0], got[1], ct[0].date(), ct[-1].date()))
+
+    # NDFrame.tearsheet
+    use_bm = bm_obj is not None and not multi
+    lo, hi = common(sp["s"], sp["rf"], sp["bm"]) if use_bm else common(sp["s"], sp["rf"])
+    if use_bm and len(ref_collapse(times[lo:hi], arrays[0][lo:hi])[0]) <= 2:
+        use_bm = False                            # (benchmark block of the tearsheet: more than one return)
+        lo, hi = common(sp["s"], sp["rf"])
+    ct, refs = reference(lo, hi, arrays, use_bm)
+    res.tag("tearsheet+rf" + ("+bm" if use_bm else ""))
+    kwargs = {"benchmark": bm_long} if use_bm else {}
+    sheet = strat.tearsheet(risk_free=rf_long, **kwargs)
+    compare_tearsheet(res, "tearsheet(series of different spans)", sheet, refs,
+                      TEARSHEET_ROWS + RF_CAGR_ROW + (TEARSHEET_BM_ROWS if use_bm else []))
+    span_rows(sheet, ct, "tearsheet")
+
+    # TrackRecord.tearsheet with the user's series attached (TradingEnv.backtest)
+    if w["track"] and not res.violations:
+        use_bm = bm_obj is not None
+        lo, hi = common(sp["s"], sp["rf"], sp["bm"]) if use_bm else common(sp["s"], sp["rf"])
+        if use_bm and len(ref_collapse(times[lo:hi], arrays[0][lo:hi])[0]) <= 2:
+            use_bm = False
+            lo, hi = common(sp["s"], sp["rf"])
+        ct, refs = reference(lo, hi, arrays[:1], use_bm)
+        res.tag("track-record+rf" + ("+bm" if use_bm else ""))
+        s_lo, s_hi = sp["s"]
+        sheet = check_track_record(res, times[s_lo:s_hi], arrays[0][s_lo:s_hi], refs, risk_free=rf_long,
+                                   benchmark=bm_long if use_bm else None,
+                                   rows=TEARSHEET_ROWS + RF_CAGR_ROW + (TEARSHEET_BM_ROWS if use_bm else []),
+                                   what="TrackRecord.tearsheet(series of different spans)")
+        span_rows(sheet, ct, "TrackRecord.tearsheet")
+    return res
 
 
 # =========================================================================================== PART scale
@@ -961,10 +1053,10 @@ def time_offsets(draw, kind, n):
 
 
 @st.composite
-def base_cases(draw, tier="quick", need_rf=False, need_bm=False, allow_float_rf=True, kinds=KINDS):
+def base_cases(draw, tier="quick", need_rf=False, need_bm=False, allow_float_rf=True, kinds=KINDS, sizes=None):
     kind = draw(st.sampled_from(kinds))
     nmax = 400
-    n = draw(st.one_of(st.integers(2, 6), st.integers(2, 40), st.integers(2, 40), st.integers(2, 40),
+    n = draw(sizes) if sizes is not None else draw(st.one_of(st.integers(2, 6), st.integers(2, 40), st.integers(2, 40), st.integers(2, 40),
                        st.integers(3, 12), st.integers(41, nmax)))
     start, offs = draw(time_offsets(kind, n))
     variant = draw(st.sampled_from(["bounded", "bounded", "heavy", "const"]))
@@ -1048,6 +1140,26 @@ def derived_cases(draw, tier="quick"):
     return case
 
 
+@st.composite
+def window_cases(draw, tier="quick"):
+    sizes = st.one_of(st.integers(4, 12), st.integers(6, 40), st.integers(6, 40), st.integers(41, 160))
+    case = draw(base_cases(tier, need_rf=True, allow_float_rf=False, sizes=sizes))
+    case["int"] = False
+    n = len(case["t"])
+    cut = st.one_of(st.just(0), st.integers(0, max(1, n // 3)))
+    win = {"s": [draw(cut), draw(cut)], "rf": [draw(cut), draw(cut)], "bm": [draw(cut), draw(cut)],
+           "track": draw(st.booleans())}
+    case["win"] = win
+    # different growth outside the stretch the strategy covers
+    lo, hi = win["s"][0], n - win["s"][1]
+    rf_out = draw(st.sampled_from([1.0005, 1.002, 0.999, 1.01]))
+    case["rf"]["moves"] = [m if lo <= i and i + 1 < hi else rf_out for i, m in enumerate(case["rf"]["moves"])]
+    if case["bm"] is not None:
+        bm_out = draw(st.sampled_from([1.01, 0.99, 1.05, 0.97]))
+        case["bm"]["moves"] = [m if lo <= i and i + 1 < hi else m * bm_out for i, m in enumerate(case["bm"]["moves"])]
+    return case
+
+
 DEFECTS = ["nan", "nonpos", "dup", "swap", "nat", "range", "str", "intidx"]
 
 
@@ -1080,6 +1192,7 @@ FINDING_PROBES = {"D11": probe_tracking_error_two_levels}
 PARTS = [
     Part("definitions", strategy=lambda tier: definition_cases(tier), run=run_definitions, quick=1300, thorough=30000),
     Part("scale", strategy=lambda tier: scale_cases(tier), run=run_scale, quick=600, thorough=16000),
+    Part("window", strategy=lambda tier: window_cases(tier), run=run_window, quick=300, thorough=8000),
     Part("derived", strategy=lambda tier: derived_cases(tier), run=run_derived, quick=400, thorough=10000),
     Part("reject", strategy=lambda tier: reject_cases(tier), run=run_reject, quick=600, thorough=16000),
 ]
